@@ -114,7 +114,7 @@ def run(ctx):
                    workers=min(8, vlib.NCPU), timeout=1200, deadlock=False, coverage=not quick)
     if safe.ok and not quick:
         ctx.require_coverage(safe, ["RecvHeader", "RecvClosed", "SelUserDone", "SelSvcDone", "CheckCtx", "CheckOk",
-                                    "CheckOverflow", "Send", "SendUserDone", "AttemptAny", "Consume",
+                                    "CheckOverflow", "Send", "SendUserDone", "Attempt", "Consume",
                                     "ConsumerSeesClose", "CancelUser", "StopService", "CloseFeed"])
     ctx.tlc(SPEC, "blob/BlobSub_live.cfg", workers=4, timeout=900, deadlock=False)
     ctx.tlc(SPEC, "blob/BlobSub_allfail.cfg", workers=4, timeout=900, deadlock=False)
